@@ -175,6 +175,71 @@ Proof.
     erewrite find_sub_set_same by exact F. exact S3.
 Qed.
 
+(* ---- the graph comparison used by the replay checker decides equality ---------------------------- *)
+Lemma list_eqb_eq {A} (eqb : A -> A -> bool) (l1 : list A) :
+  forall l2, (forall x y, In x l1 -> eqb x y = true -> x = y) -> list_eqb eqb l1 l2 = true -> l1 = l2.
+Proof.
+  induction l1 as [|x t IH]; intros [|y u] H E; cbn in E; try discriminate; auto.
+  apply andb_true_iff in E. destruct E as [E1 E2].
+  f_equal; [apply H; [left; reflexivity|exact E1]|apply IH; [intros; apply H; [right; assumption|assumption]|exact E2]].
+Qed.
+
+Lemma opt_eqb_eq {A} (eqb : A -> A -> bool) : (forall x y, eqb x y = true -> x = y) ->
+  forall a b, opt_eqb eqb a b = true -> a = b.
+Proof. intros H [x|] [y|]; cbn; intro E; try discriminate; auto. f_equal. auto. Qed.
+
+Lemma str_eq x y : String.eqb x y = true -> x = y.
+Proof. apply String.eqb_eq. Qed.
+Lemma z_eq x y : Z.eqb x y = true -> x = y.
+Proof. apply Z.eqb_eq. Qed.
+
+Lemma attrv_eqb_eq a b : attrv_eqb a b = true -> a = b.
+Proof.
+  destruct a, b; cbn; intro E; try discriminate;
+    repeat match goal with H : _ && _ = true |- _ => apply andb_true_iff in H; destruct H end;
+    f_equal;
+    try (apply z_eq; assumption); try (apply str_eq; assumption);
+    try (eapply list_eqb_eq; [|eassumption]; intros; first [apply z_eq|apply str_eq]; assumption).
+Qed.
+
+Lemma eqb_sound_n : forall n,
+  (forall a b, depth_node a <= n -> node_eqb a b = true -> a = b) /\
+  (forall g h, depth_graph g <= n -> graph_eqb g h = true -> g = h).
+Proof.
+  induction n as [|n [IHn IHg]].
+  - split; [intros [? ? ? ? ? ?]|intros [? ? ? ?]]; cbn; intros; lia.
+  - split.
+    + intros [d o i ou at_ s] [d' o' i' ou' at_' s'] D E.
+      cbn [node_eqb] in E.
+      repeat match goal with H : _ && _ = true |- _ => apply andb_true_iff in H; destruct H end.
+      assert (Es : s = s').
+      { cbn [depth_node] in D. apply le_S_n in D.
+        clear - D H0 IHg. revert s' D H0.
+        induction s as [|[k g] t IH]; intros [|[k' g'] t'] D E; try discriminate; auto.
+        repeat match goal with H : _ && _ = true |- _ => apply andb_true_iff in H; destruct H end.
+        f_equal.
+        - f_equal; [apply str_eq; assumption|apply IHg; [lia|assumption]].
+        - apply IH; [lia|assumption]. }
+      f_equal; try (apply str_eq; assumption); try exact Es.
+      * eapply list_eqb_eq; [|eassumption]. intros; eapply opt_eqb_eq; [apply str_eq|eassumption].
+      * eapply list_eqb_eq; [|eassumption]. intros; apply str_eq; assumption.
+      * eapply list_eqb_eq; [|eassumption]. intros [x1 x2] [y1 y2] _ Ex. cbn in Ex.
+        apply andb_true_iff in Ex. destruct Ex as [E1 E2]. f_equal; [apply str_eq|apply attrv_eqb_eq]; assumption.
+    + intros [gi gn ns go] [hi hn ms ho] D E.
+      cbn [graph_eqb] in E.
+      repeat match goal with H : _ && _ = true |- _ => apply andb_true_iff in H; destruct H end.
+      assert (En : ns = ms).
+      { cbn [depth_graph] in D. apply le_S_n in D.
+        clear - D H0 IHn. revert ms D H0.
+        induction ns as [|a t IH]; intros [|b u] D E; try discriminate; auto.
+        apply andb_true_iff in E. destruct E as [E1 E2].
+        f_equal; [apply IHn; [lia|assumption]|apply IH; [lia|assumption]]. }
+      f_equal; try exact En; eapply list_eqb_eq; try eassumption; intros; apply str_eq; assumption.
+Qed.
+
+Theorem graph_eqb_eq g h : graph_eqb g h = true -> g = h.
+Proof. apply (proj2 (eqb_sound_n (depth_graph g))). lia. Qed.
+
 Section Proofs.
   Variable V : Type.
   Variable sem : string -> string -> list (string * attrv) -> list (option V) -> option (list V).
@@ -444,99 +509,6 @@ Section Proofs.
     induction ns as [|h t IH]; intros [|j] n n' e N H; cbn in *; try discriminate.
     - inversion N; subst. rewrite H. reflexivity.
     - destruct (eval_node ev e h); [|reflexivity]. eapply IH; eauto.
-  Qed.
-
-  (* ---- one application at any nesting level ------------------------------------------------------ *)
-  Fixpoint ok_at (p : path) (a : app) (X : list vname) (g : graph) : Prop :=
-    match p with
-    | [] => app_sound_at (g_nodes g) (g_outs g) a X
-    | (idx, key) :: p' =>
-      match nth_error (g_nodes g) idx with
-      | Some n => match find_sub key (n_subs n) with Some sg => ok_at p' a X sg | None => False end
-      | None => False
-      end
-    end.
-
-  Theorem apply_at_sound : forall p a X g g', apply_at p a g = Some g' -> ok_at p a X g ->
-    forall fuel outer args, eval_graph fuel outer g args = eval_graph fuel outer g' args.
-  Proof.
-    induction p as [|[idx key] p IH]; intros a X [gi gn ns go] g' HA HO fuel outer args.
-    - cbn in HA. destruct (apply_nodes a ns) as [ns'|] eqn:E; cbn in HA; [|discriminate].
-      inversion HA; subst. cbn in HO. eapply apply_nodes_sound; eauto.
-    - cbn [apply_at] in HA. cbn [ok_at g_nodes] in HO.
-      destruct (nth_error ns idx) as [[d op ins outs at_ subs]|] eqn:N; [|discriminate].
-      cbn [n_subs] in HO.
-      destruct (find_sub key subs) as [sg|] eqn:F; [|discriminate].
-      destruct (apply_at p a sg) as [sg'|] eqn:A; [|discriminate].
-      inversion HA; subst; clear HA.
-      destruct fuel as [|f]; [reflexivity|]. cbn [Sem.eval_graph].
-      unfold Sem.eval_body. cbn [g_ins g_nodes g_outs].
-      destruct (bind gi args outer) as [e0|]; [|reflexivity].
-      erewrite run_set_nth; [reflexivity|exact N|].
-      intro e. apply eval_node_congr with (sg := sg); [exact F|].
-      intros o ar. eapply IH; eauto.
-  Qed.
-
-  (* ---- a pass: the composition of sound applications is sound ----------------------------------- *)
-  Fixpoint pass_ok (l : list (path * app * list vname)) (g : graph) : Prop :=
-    match l with
-    | [] => True
-    | (p, a, X) :: t => ok_at p a X g /\
-                        match apply_at p a g with Some g' => pass_ok t g' | None => False end
-    end.
-
-  Theorem apply_pass_sound : forall l g g', apply_pass (map fst l) g = Some g' -> pass_ok l g ->
-    forall fuel outer args, eval_graph fuel outer g args = eval_graph fuel outer g' args.
-  Proof.
-    induction l as [|[[p a] X] t IH]; intros g g' HP HO fuel outer args; cbn in *.
-    - inversion HP; subst. reflexivity.
-    - destruct HO as [H1 H2]. destruct (apply_at p a g) as [g1|] eqn:A; [|discriminate].
-      rewrite (apply_at_sound p a X g g1 A H1). eapply IH; eauto.
-  Qed.
-
-  (* ---- the node iteration: whatever it fires is a pass ------------------------------------------- *)
-  Lemma sweep_is_pass : forall fuel try i ns acc ns' apps,
-    sweep fuel try i ns acc = Some (ns', apps) ->
-    exists fired, apps = rev acc ++ fired /\
-      forall gi gn go, apply_pass (map (fun a => ([], a)) fired) (Graph gi gn ns go) = Some (Graph gi gn ns' go).
-  Proof.
-    induction fuel as [|f IH]; intros try i ns acc ns' apps H; cbn in H; [discriminate|].
-    destruct (Nat.leb (List.length ns) i).
-    - inversion H; subst. exists []. rewrite app_nil_r. split; [reflexivity|]. intros; reflexivity.
-    - destruct (try ns i) as [a|].
-      + destruct (Nat.eqb _ _); [|discriminate].
-        destruct (apply_nodes a ns) as [ns1|] eqn:A; [|discriminate].
-        destruct (IH _ _ _ _ _ _ H) as [fired [E P]]. exists (a :: fired). split.
-        * rewrite E. cbn. rewrite <- app_assoc. reflexivity.
-        * intros gi gn go. cbn. rewrite A. cbn. apply P.
-      + apply (IH _ _ _ _ _ _ H).
-  Qed.
-
-  (* every application the iteration performs satisfies the side conditions with some X *)
-  Definition try_sound (try : list node -> nat -> option app) (outs : list vname) : Prop :=
-    forall ns i a, try ns i = Some a -> exists X, app_sound_at ns outs a X.
-
-  Theorem sweep_sound : forall fuel try i ns acc ns' apps outs,
-    try_sound try outs -> sweep fuel try i ns acc = Some (ns', apps) ->
-    forall fuel' outer gi gn args,
-      eval_graph fuel' outer (Graph gi gn ns outs) args = eval_graph fuel' outer (Graph gi gn ns' outs) args.
-  Proof.
-    induction fuel as [|f IH]; intros try i ns acc ns' apps outs T H fuel' outer gi gn args; cbn in H; [discriminate|].
-    destruct (Nat.leb (List.length ns) i).
-    - inversion H; subst. reflexivity.
-    - destruct (try ns i) as [a|] eqn:Tr.
-      + destruct (Nat.eqb _ _); [|discriminate].
-        destruct (apply_nodes a ns) as [ns1|] eqn:A; [|discriminate].
-        destruct (T ns i a Tr) as [X HX].
-        rewrite (apply_nodes_sound a ns ns1 outs X A HX). eapply IH; eauto.
-      + eapply IH; eauto.
-  Qed.
-
-  (* first-applicable-rule-wins preserves soundness of the rules *)
-  Lemma first_rule_sound rules outs : Forall (fun r => try_sound r outs) rules -> try_sound (first_rule rules) outs.
-  Proof.
-    induction 1 as [|r t Hr Ht IH]; intros ns i a H; cbn in H; [discriminate|].
-    destruct (r ns i) as [a'|] eqn:E; [inversion H; subst; eapply Hr; eauto|eapply IH; eauto].
   Qed.
 
   (* ---- the executable side conditions imply the propositional ones ------------------------------- *)
